@@ -6,6 +6,7 @@
 #include "c14_misc.hh"
 #include "c14_stdio.hh"
 #include "c14_faults.hh"
+#include "c14_meta.hh"
 #include "c14_threads.hh"
 
 int main(int argc, char** argv) {
@@ -17,7 +18,7 @@ int main(int argc, char** argv) {
   string only = c.arg("only");
   auto want = [&](const char* s) { return only.empty() || only == s; };
   vf::Rng r = c.rng();
-  vf::Rng r2 = c.rng(2), r3 = c.rng(3), r4 = c.rng(4), r5 = c.rng(5), r6 = c.rng(6), r7 = c.rng(7), r8 = c.rng(8), r9 = c.rng(9), r10 = c.rng(10), r11 = c.rng(11), r12 = c.rng(12), r13 = c.rng(13);
+  vf::Rng r2 = c.rng(2), r3 = c.rng(3), r4 = c.rng(4), r5 = c.rng(5), r6 = c.rng(6), r7 = c.rng(7), r8 = c.rng(8), r9 = c.rng(9), r10 = c.rng(10), r11 = c.rng(11), r12 = c.rng(12), r13 = c.rng(13), r14 = c.rng(14);
 
   if (want("fdplans")) part_fdplans();
   if (want("exact")) part_exact();
@@ -33,6 +34,8 @@ int main(int argc, char** argv) {
   if (want("readfaults")) part_readfaults(r11);
   if (want("signals")) part_signals(r12);
   if (want("writefaults")) part_writefaults(r13);
+  if (want("procfs")) part_procfs();
+  if (want("lyingstat")) part_lyingstat(r14);
   if (want("files")) part_files(r5);
   if (want("listdir")) part_listdir(r6);
   if (want("unlink")) part_unlink(r7);
